@@ -2,6 +2,7 @@ package c04
 
 import (
 	"fmt"
+	"runtime"
 	"sort"
 	"strings"
 
@@ -27,4 +28,17 @@ func dumpFuncs() string {
 	}
 	sort.Strings(lines)
 	return strings.Join(lines, "\n")
+}
+
+// leakProbe runs n Part A cases of one via and reports the live heap growth per case (dev aid, spec "leak:<via>:<n>").
+func leakProbe(via string, n int) string {
+	var m0, m1 runtime.MemStats
+	runtime.GC()
+	runtime.ReadMemStats(&m0)
+	for i := 0; i < n; i++ {
+		execA("A|" + via + "|1|d|1|dn|1|v,v,k1,v,zz,v")
+	}
+	runtime.GC()
+	runtime.ReadMemStats(&m1)
+	return fmt.Sprintf("%s: %d bytes/case live", via, (int64(m1.HeapAlloc)-int64(m0.HeapAlloc))/int64(n))
 }
